@@ -27,6 +27,13 @@ SPIN = {  # endless computations driven by bytecode
     "recursion": "re_ = |n| re_(n + 1)\nre_(0)\n",
     "method_recursion": "mr_ = {f: |n| self.g(n + 1), g: |n| self.f(n + 1)}\nmr_.f(0)\n",
     "nested_loops": "loop\n  for i_ in 0..1000\n    x_ = i_\n",
+    # endless loops whose iterations each do their work inside short nested executions (native callbacks, overloads,
+    # calls through core functions): the outer loop itself executes very few instructions
+    "loop_of_native_callbacks": "wk_ = |n_|\n  t_ = 0\n  for i_ in 0..n_\n    t_ += i_\n  t_\nloop\n  (1..3).each(|v_| wk_ 20000).consume()\n",
+    "loop_of_overloads": "wo_ = {@+: |o_|\n  t_ = 0\n  for i_ in 0..20000\n    t_ += i_\n  t_\n}\nloop\n  q_ = wo_ + 1\n",
+    "loop_of_folds": "loop\n  q_ = (0..20000).fold 0, |a_, v_| a_ + v_\n",
+    "loop_of_sort_keys": "loop\n  q_ = (0..3000).to_list().sort |v_| 0 - v_\n",
+    "loop_of_generator_drains": "gd_ = ||\n  for i_ in 0..20000\n    yield i_\nloop\n  q_ = gd_().count()\n",
 }
 def nest(kind, spin):
     """Wraps the spinning code in a nesting; returns the program text that spins when run."""
@@ -37,11 +44,17 @@ def nest(kind, spin):
     if kind == "native_fold": return "cb_ = |a_, v_|\n" + ind(spin) + "  a_\n[1, 2].fold 0, cb_\n"
     if kind == "operator_overload": return "pl_ = |rhs_|\n" + ind(spin) + "  0\nov_ = {@+: pl_}\nq_ = ov_ + 1\n"
     if kind == "display": return "di_ = ||\n" + ind(spin) + "  'd'\ndo_ = {@display: di_}\nq_ = '{do_}'\n"
+    if kind == "display_in_container": return "di_ = ||\n" + ind(spin) + "  'd'\ndo_ = {@display: di_}\nq_ = '{[do_]}'\n"
+    if kind == "display_in_map_print": return "di_ = ||\n" + ind(spin) + "  'd'\ndo_ = {@display: di_}\nprint {k: (1, do_)}\n"
+    if kind == "equality_overload_in_list": return "eq_ = |o_|\n" + ind(spin) + "  true\neo_ = {@==: eq_}\nq_ = [eo_] == [1]\n"
+    if kind == "sort_key": return "sk_ = |v_|\n" + ind(spin) + "  v_\nq_ = [2, 1].sort sk_\n"
+    if kind == "map_update": return "mu_ = |v_|\n" + ind(spin) + "  v_\nq_ = {a: 1}.update 'a', mu_\n"
     if kind == "next_object": return "nx_ = ||\n" + ind(spin) + "  null\nit_ = {@next: nx_}\nfor z_ in it_\n  null\n"
     if kind == "generator_body": return "gb_ = ||\n" + ind(spin) + "  yield 1\nfor z_ in gb_()\n  null\n"
     if kind == "generator_to_list": return "gb_ = ||\n" + ind(spin) + "  yield 1\nq_ = gb_().to_list()\n"
     raise ValueError(kind)
-NESTINGS = ["top", "function", "method", "native_callback", "native_fold", "operator_overload", "display", "next_object", "generator_body", "generator_to_list"]
+NESTINGS = ["top", "function", "method", "native_callback", "native_fold", "operator_overload", "display", "next_object", "generator_body", "generator_to_list",
+            "display_in_container", "display_in_map_print", "equality_overload_in_list", "sort_key", "map_update"]
 def wrap(kind, prog):
     if kind == "none": return prog
     if kind == "try_catch": return "try\n" + ind(prog) + "catch e_\n  print 'CAUGHT'\n"
@@ -103,8 +116,12 @@ def _shard(shard, n, tier, seed, budget_s, profile="release"):
             over_in = max(fired) * 1000 if fired else 0.0
             rep["max_overshoot_ms_inside_vm"] = max(rep["max_overshoot_ms_inside_vm"], over_in)
             rep["max_wall_over_limit_ms"] = max(rep["max_wall_over_limit_ms"], wall_ms - L)
-            if L + over_in > bound_ms or wall_ms > bound_ms + 2000:
-                verdicts.append(("overshoot", "fired %.0f ms after the deadline (wall %.0f ms, limit %d ms, bound %d ms)" % (over_in, wall_ms, L, bound_ms)))
+            # the bound is judged on the time until the host API returned (measured inside the worker); the wall time seen
+            # from the driver also contains the worker's rendering of the error, which is not koto's return time
+            api_ms = r.get("call_us", wall_ms * 1000.0) / 1000.0
+            rep["max_api_return_ms_over_limit"] = max(rep.get("max_api_return_ms_over_limit", 0.0), api_ms - L)
+            if L + over_in > bound_ms or api_ms > bound_ms:
+                verdicts.append(("overshoot", "fired %.0f ms after the deadline, the API returned after %.0f ms (wall %.0f ms, limit %d ms, bound %d ms)" % (over_in, api_ms, wall_ms, L, bound_ms)))
                 rep["retries"] += 1
                 time.sleep(0.2)
                 continue       # retried: only a verdict when every attempt exceeds the bound
